@@ -35,7 +35,7 @@ func c15Groups(tier string) []core.Group {
 	if tier == "thorough" {
 		maxN = 10
 	}
-	for _, shape := range [][]int{{}, {1}, {5}, {8}, {10}, {4, 1}, {1, 4}, {2, 3}, {3, 3}, {2, 4}, {2, 5}, {2, 2, 2}, {1, 3, 2}, {2, 1, 3}} {
+	for _, shape := range [][]int{{}, {1}, {5}, {8}, {10}, {4, 1}, {1, 4}, {2, 3}, {3, 3}, {2, 4}, {2, 5}, {2, 2, 2}, {1, 3, 2}, {2, 1, 3}, {1, 5, 1}, {1, 1, 4}, {3, 1, 1}, {1, 1}} {
 		if model.Size(shape) > maxN {
 			continue
 		}
